@@ -30,7 +30,7 @@ m = {
     "setup_cmd": "./setup.sh",
     "hooks": {
         "guard": "verif",
-        "enable": "go test -tags verif -vet=off -overlay <.work/…/overlay.json> (build-time overlay adds package go/verifhook; nothing is written into /repo)",
+        "enable": "go test -tags verif -vet=off -overlay <.work/…/overlay.json>: a build-time overlay (no file is ever written into /repo) adds the tag-guarded packages go/verifhook (re-exports of internal/cbor and internal/signingalgorithm), go/verifhook/signbundlecmd (the sign-bundle command's sources with only the package clause rewritten) and go/verifyield (yield hook); for the serial/interleave-fine binary only, it also replaces the library sources by copies with AST-inserted verifyield.Yield() calls (sim/cmd/yieldgen)",
         "baseline_off_cmd": "cd /repo && GOFLAGS=-mod=mod GOPROXY=off GOSUMDB=off GOTOOLCHAIN=local go test -vet=off -count=1 ./...",
         "source_commits": [],
         "add_only": True,
